@@ -14,7 +14,8 @@
    zipora_verif hooks).  A schedule is a list of (thread, command); the command is
    looked at only when the thread is between operations, so threads choose their
    operations freely.  The owner of a block may overwrite the block's link word at any
-   time (it is user memory) - command [CScribble].
+   time (it is user memory) - command [CScribble].  [CPushZ] is deallocate_with_zero of
+   lockfree_pool.rs (zero_on_free with SIMD optimisation): the block is scrubbed before it is pushed.
 
    Definitions only.  [fl] and [ncas] are ghost fields: nothing reads them. *)
 From ZV.Common Require Import Base.
@@ -44,7 +45,9 @@ Inductive cmd :=
 | CNone
 | CPop
 | CPush (b : N)
-| CScribble (b v : N).
+| CScribble (b v : N)
+| CPushZ (b sz : N).   (* LockFreeMemoryPool::deallocate_with_zero(ptr, sz) with zero_on_free: the first sz
+                          bytes of the block are zeroed, THEN the block is pushed *)
 
 Inductive pcT :=
 | Idle
@@ -86,6 +89,21 @@ Fixpoint mem_n (b : N) (l : list N) : bool :=
 Fixpoint remove_n (b : N) (l : list N) : list N :=
   match l with [] => [] | x :: r => if x =? b then r else x :: remove_n b r end.
 
+(* the link word (little endian, 4 bytes) after its first min(sz, 4) bytes were zeroed *)
+Definition zero_low (v sz : N) : N :=
+  if 4 <=? sz then 0 else let m := 2 ^ (8 * sz) in (v / m) * m.
+
+(* the block whose link word the next step of thread t zeroes (deallocate_with_zero), if any *)
+Definition zero_target (s : state) (t : nat) (k : cmd) : option N :=
+  match nth_error (thr s) t with
+  | Some l =>
+      match pc l, k with
+      | Idle, CPushZ b _ => if mem_n b (held l) then Some b else None
+      | _, _ => None
+      end
+  | None => None
+  end.
+
 Definition init (nthreads : nat) (c : cfg) : state :=
   {| head := tail c; gen := 0; nxt := fun _ => 0; count := 0; bump := bump0 c;
      thr := repeat {| pc := Idle; held := [] |} nthreads; fl := []; ncas := 0 |}.
@@ -120,6 +138,14 @@ Definition step (c : cfg) (s : state) (t : nat) (k : cmd) : state * list (N * N)
           if mem_n b (held l)
           then ({| head := head s; gen := gen s; nxt := upd_nxt (nxt s) b v; count := count s;
                    bump := bump s; thr := thr s; fl := fl s; ncas := ncas s |}, [])
+          else (s, [])
+      | CPushZ b sz =>
+          (* fast_fill(block[0..sz], 0) and then deallocate: both before the first schedule point *)
+          if mem_n b (held l)
+          then ({| head := head s; gen := gen s; nxt := upd_nxt (nxt s) b (zero_low (nxt s b) sz);
+                   count := count s; bump := bump s;
+                   thr := upd_thr (thr s) t {| pc := PushStart b; held := remove_n b (held l) |};
+                   fl := fl s; ncas := ncas s |}, [])
           else (s, [])
       end
     | PopStart =>
